@@ -546,7 +546,8 @@ theorem colBmod_segment_own (cplx segOps : Bool) (jcol fpanelc : Nat) (xsup supn
 for every listed representative of another supernode the hypotheses of `colBmod_segment_spec`
 (`SegHyp`, stated on the INITIAL state: they involve `xlusup`, the size of `dense` and the zero prefix
 of `tempv` only, none of which an iteration changes); the panel does not start inside `jcol`'s own
-supernode (`fpanelc ≤ fsupc`; otherwise see `colBmod_spec` in level_note: not proved); and for the
+supernode (`fpanelc ≤ fsupc`: that restriction is what makes this `_partial`, see `colBmod_spec_goal`
+below); and for the
 supernode of `jcol` those of `snodeBmod_spec`.  Then
 (a) iteration `k` performs `SegStep` — the conclusion of `colBmod_segment_spec` for `segrep[nseg-1-k]`
     — from `S k` to `S (k+1)`: the supernodes update `dense` one after the other in the listed order;
@@ -554,7 +555,18 @@ supernode of `jcol` those of `snodeBmod_spec`.  Then
     `D`: column `jcol` of `lusup` holds the forward substitution with the supernode's diagonal block on
     top and `D[row] − Σ_r L(row,r)·u_r` below, nothing else in `lusup` changed, `dense` is zero on the
     supernode's rows and `D` elsewhere, `tempv` as before (zero), `xlusup[jcol+1]` set. -/
-theorem colBmod_spec (cplx segOps : Bool) (jcol nseg fpanelc : Nat) (segrep repfnz xsup supno lsub xlsub : Array Nat)
+/- colBmod_spec_goal (NOT proved; the full statement this file aims at):
+   (1) the same conclusion WITHOUT `hp : fpanelc ≤ fsupc`: when the panel starts inside `jcol`'s own
+       supernode (`d_fsupc = fpanelc - fsupc > 0`) the in-supernode update uses the columns
+       `fpanelc..jcol-1` only (`luptr = xlusup[fpanelc] + d_fsupc`, `ufirst = xlusup[jcol] + d_fsupc`,
+       `nrow = nsupr - d_fsupc - nsupc`); `colTail` mirrors it and family `colbmod` compares it bit for
+       bit (tag tail=partial), but `snodeBmod_spec'` has not been generalised to the offset;
+   (2) `dense` after the loop, read on the non-pivot rows, and the parked U-segments equal
+       `LU.elimBlocks blocks st.dense` for `blocks` = the listed supernodes' columns in the listed order
+       (given `DepRespecting`): per segment this is `colBmod_segment_is_supernodal_step`; the fold is not
+       done because `column_bmod` keeps `u_t` in `dense` at the pivot rows (until `copy_to_ucol`) whereas
+       `snodeBlock` zeroes them, so the invariant must carry "later blocks are zero on earlier pivot rows". -/
+theorem colBmod_spec_partial (cplx segOps : Bool) (jcol nseg fpanelc : Nat) (segrep repfnz xsup supno lsub xlsub : Array Nat)
     (st : SnodeSt K) (S : Nat → SnodeSt K)
     (hS : S = segsUpTo cplx segOps jcol nseg fpanelc segrep repfnz xsup supno lsub xlsub st)
     (H : ∀ k, k < nseg → SegHyp jcol fpanelc xsup supno lsub xlsub repfnz segrep[nseg - 1 - k]! st)
@@ -626,7 +638,7 @@ theorem cG_ok : SegOK cLsub cG cSt.dense :=
 example := colBmod_segment_spec false true 6 0 cXsup cSupno cLsub cXlsub cRepfnz 4 cSt cG rfl (by decide +kernel) cG_ok
   (fun _ => by decide +kernel) (fun _ => by decide +kernel)
 theorem cTail_distinct : ∀ t, t < 3 → ∀ u, u < 3 → cLsub[7 + t]! = cLsub[7 + u]! → t = u := by decide +kernel
-example := colBmod_spec false true 6 1 0 cSegrep cRepfnz cXsup cSupno cLsub cXlsub cSt _ rfl
+example := colBmod_spec_partial false true 6 1 0 cSegrep cRepfnz cXsup cSupno cLsub cXlsub cSt _ rfl
   (fun k hk => by
     obtain rfl : k = 0 := by omega
     exact fun _ => ⟨cG_ok, fun _ => ⟨by decide +kernel, by decide +kernel⟩⟩)
